@@ -127,6 +127,7 @@ package casketfile
 //@ func (*parser).snippetTokens
 //@   requires p != nil && p.cursor >= -1
 //@   modifies Dispenser.cursor
+//@   ensures [cursor_ok] p.cursor >= -1
 //@   loop 1 invariant p.cursor >= -1
 
 //@ func replaceEnvVars
@@ -272,3 +273,26 @@ package casketfile
 //@   ensures [single_key_in_one_pair_of_parentheses] result0 == (len(p.block.Keys) == 1 && len(key0()) >= 2 && key0()[0] == '(' && key0()[len(key0())-1] == ')')
 //@   ensures [name_is_the_key_without_exactly_that_pair] result0 ==> (len(result1) == len(key0()) - 2 && forall(i, 0, len(result1), result1[i] == key0()[i+1]))
 //@   ensures [no_name_otherwise] !result0 ==> result1 == ""
+
+//@ unit parser_top frames=on props=C10,C09 nilchecks=on filter=`casketfile\.parser\)\.(parseOne|begin|parseAll)$`
+//@ // C10, the top of the parser: every block starts from an empty token table; a snippet definition is stored under the
+//@ // name isSnippet gives it, once (a second definition of the same name is an error, never a silent overwrite), and is not
+//@ // kept as a server block; everything else goes through addresses / blockContents (unit parser_chain). Safety for every
+//@ // token sequence. (Termination of parseAll's loop rests on Next advancing the cursor: unit dispenser_api.)
+//@ use casketfile/contracts_verif.go:parser_chain
+//@ use casketfile/contracts_verif.go:snippet_names
+//@ func (*parser).begin
+//@   requires p != nil && 0 <= p.cursor && p.cursor < len(p.tokens) && p.block.Tokens != nil
+//@   ensures [cursor_ok] p.cursor >= -1
+//@   modifies Dispenser.cursor, Dispenser.tokens, ServerBlock.Keys, parser.eof, parser.definedSnippets, MV:map[string][]github.com/tmpim/casket/casketfile.Token, MD:map[string][]github.com/tmpim/casket/casketfile.Token, E:github.com/tmpim/casket/casketfile.Token, ghost:fileLookups
+//@   // parseAll only starts a block after Next found a token: the empty-input return is dead under the precondition, by declaration
+//@   unreachable reachable_return#1
+//@   at call mapupdate:*#1 before [snippet_stored_once_under_its_name] !has(p.definedSnippets, arg1) && arg0 == p.definedSnippets
+//@ func (*parser).parseOne
+//@   requires p != nil && 0 <= p.cursor && p.cursor < len(p.tokens)
+//@   ensures [cursor_ok] p.cursor >= -1
+//@   modifies Dispenser.cursor, Dispenser.tokens, parser.block, ServerBlock.Keys, ServerBlock.Tokens, parser.eof, parser.definedSnippets, MV:map[string][]github.com/tmpim/casket/casketfile.Token, MD:map[string][]github.com/tmpim/casket/casketfile.Token, E:github.com/tmpim/casket/casketfile.Token, ghost:fileLookups
+//@ func (*parser).parseAll
+//@   requires p != nil && p.cursor >= -1
+//@   modifies Dispenser.cursor, Dispenser.tokens, parser.block, ServerBlock.Keys, ServerBlock.Tokens, parser.eof, parser.definedSnippets, MV:map[string][]github.com/tmpim/casket/casketfile.Token, MD:map[string][]github.com/tmpim/casket/casketfile.Token, E:github.com/tmpim/casket/casketfile.Token, E:github.com/tmpim/casket/casketfile.ServerBlock, ghost:fileLookups
+//@   loop 1 invariant p != nil && p.cursor >= -1
